@@ -18,6 +18,7 @@ import (
 	"errors"
 	"fmt"
 	"io"
+	"io/fs"
 	"log/slog"
 	"math/big"
 	"path/filepath"
@@ -89,7 +90,7 @@ func (s *submitStore) Fetch(ctx context.Context, key string) ([]byte, error) {
 	defer s.mu.Unlock()
 	o, ok := s.objects[key]
 	if !ok {
-		return nil, fmt.Errorf("key %q not found", key)
+		return nil, fmt.Errorf("key %q not found: %w", key, fs.ErrNotExist) // as LocalBackend reports a missing file
 	}
 	return bytes.Clone(o.data), nil
 }
